@@ -15,6 +15,7 @@ import (
 	"sort"
 	"strconv"
 	"sync"
+	"sync/atomic"
 	"testing/synctest"
 	"time"
 )
@@ -96,6 +97,7 @@ type Sim struct {
 	hash   uint64
 	abort  bool
 	mainDone bool
+	sleeping int32
 	// SeqNo is a global event sequence number handed out by Stamp().
 	seq uint64
 }
@@ -358,7 +360,13 @@ func PreSelect() { Point("select") }
 func Sleep(d time.Duration) {
 	Point("sleep")
 	if d > 0 {
+		raceOff()
+		atomic.AddInt32(&S.sleeping, 1)
+		raceOn()
 		time.Sleep(d)
+		raceOff()
+		atomic.AddInt32(&S.sleeping, -1)
+		raceOn()
 	}
 	Woken()
 }
@@ -470,8 +478,12 @@ func Run(cfg Config, main func()) Result {
 				raceOn()
 				take(ev)
 			case <-tm.C:
+				// nothing happened for IdleLimit of simulated time; that is a deadlock
+				// unless somebody is in a (long) Sleep, which will end by itself
+				if atomic.LoadInt32(&S.sleeping) == 0 {
+					S.res.Deadlock = true
+				}
 				raceOn()
-				S.res.Deadlock = true
 			}
 			if S.res.Deadlock {
 				break
